@@ -213,7 +213,11 @@ static int32_t wr_index(struct jls_core_fsr_s * self, uint8_t level) {
 static int32_t wr_summary(struct jls_core_fsr_s * self, uint8_t level) {
     struct jls_core_fsr_level_s * dst = self->level[level];
     if (!dst->summary->header.entry_count) {
-        return 0;
+        // Level 1 also indexes data chunks too short to yield a summary entry:
+        // without the index they cannot be reached and do not count towards the length.
+        if ((level != 1) || !dst->index->header.entry_count) {
+            return 0;
+        }
     }
     int64_t pos_next = jls_raw_chunk_tell(self->parent->parent->raw);
     ROE(wr_index(self, level));
